@@ -48,12 +48,13 @@ type client struct {
 	rng     *rand.Rand
 	recs    []hist.Rec
 	lastVer map[string]string // last version this client learned per key
+	lastVal map[string]string // last value this client read / wrote per key
 	seenVer []string          // every version this client ever saw
 	n       int
 }
 
 type tracker struct { // freshness monitor (whole run of one history)
-	mu      sync.Mutex
+	mu       sync.Mutex
 	supplied map[string]bool // versions the callers put into Record.Version of writes ("ignored" by contract)
 }
 
@@ -66,7 +67,7 @@ func runHistory(s kvs.Storage, cfg config, base time.Time) ([]hist.Rec, map[stri
 	supplied := map[string]bool{}
 	var supMu sync.Mutex
 	for i := range clients {
-		clients[i] = &client{id: i, rng: rand.New(rand.NewSource(cfg.Seed*1009 + int64(i))), lastVer: map[string]string{}}
+		clients[i] = &client{id: i, rng: rand.New(rand.NewSource(cfg.Seed*1009 + int64(i))), lastVer: map[string]string{}, lastVal: map[string]string{}}
 	}
 	now := func() int64 { return int64(time.Since(base)) }
 	var setup []hist.Rec
@@ -88,6 +89,7 @@ func runHistory(s kvs.Storage, cfg config, base time.Time) ([]hist.Rec, map[stri
 				key := keyName(c.rng.Intn(cfg.Keys))
 				val := fmt.Sprintf("%d-%d", c.id, c.n)
 				c.n++
+				same := c.rng.Intn(5) == 0 && c.lastVal[key] != "" // write exactly the bytes this client saw last
 				// the Version field of written records is "ignored" by contract: supply hostile ones
 				sup := ""
 				switch c.rng.Intn(3) {
@@ -166,6 +168,7 @@ func runHistory(s kvs.Storage, cfg config, base time.Time) ([]hist.Rec, map[stri
 					if e == hist.ENil {
 						out.Val, out.Ver = string(r.Value), r.Version
 						c.lastVer[key] = r.Version
+						c.lastVal[key] = string(r.Value)
 						note(r.Version)
 					} else if e == hist.EOther {
 						out.Msg = err.Error()
@@ -177,6 +180,9 @@ func runHistory(s kvs.Storage, cfg config, base time.Time) ([]hist.Rec, map[stri
 						supplied[sup] = true
 						supMu.Unlock()
 					}
+					if same {
+						val = c.lastVal[key]
+					}
 					call := now()
 					r, err := s.Put(ctx, kvs.Record{Key: key, Value: []byte(val), Version: sup})
 					ret := now()
@@ -184,6 +190,7 @@ func runHistory(s kvs.Storage, cfg config, base time.Time) ([]hist.Rec, map[stri
 					out := hist.Out{Err: e, Ver: r.Version}
 					if e == hist.ENil {
 						c.lastVer[key] = r.Version
+						c.lastVal[key] = val
 						note(r.Version)
 					} else {
 						out.Msg = err.Error()
@@ -263,6 +270,9 @@ func runHistory(s kvs.Storage, cfg config, base time.Time) ([]hist.Rec, map[stri
 					vals := make([]string, len(keys))
 					for i, k := range keys {
 						vals[i] = fmt.Sprintf("%s.%d", val, i)
+						if same && c.lastVal[k] != "" {
+							vals[i] = c.lastVal[k]
+						}
 						sv := ""
 						if c.rng.Intn(2) == 0 {
 							sv = c.lastVer[k]
@@ -325,39 +335,43 @@ func judge(cfg config, recs []hist.Rec, supplied map[string]bool, run *report.Ru
 			break
 		}
 	}
-	// Monitor 3: freshness — version -> write must be injective, and never a caller-supplied one
-	verOf := map[string]string{} // version -> value id of the write that produced it
-	check := func(r hist.Rec, ver, val string) *finding {
-		if ver == "" {
-			return &finding{cfg.Backend + "/" + hist.KindNames[r.In.Kind] + "/empty-version", fmt.Sprintf("%s: a stored record has an empty version", r), witness{Cfg: cfg, Key: r.In.Key, History: []hist.Rec{r}}}
-		}
-		if prev, ok := verOf[ver]; ok && prev != val {
-			var pair []hist.Rec
-			for _, x := range recs {
-				if x.Out.Ver == ver || x.In.Val == prev || x.In.Val == val {
-					pair = append(pair, x)
-				}
-			}
-			return &finding{cfg.Backend + "/version-reused", fmt.Sprintf("version %q identifies two different writes (%s and %s)", ver, prev, val), witness{Cfg: cfg, Key: r.In.Key, History: pair}}
-		}
-		verOf[ver] = val
-		return nil
+	// Monitor 3: freshness — every version handed out by a write is new, and one version never names two writes
+	type wr struct {
+		val string
+		r   hist.Rec
 	}
+	byWrite := map[string]wr{}
+	fresh := true
 	for _, r := range recs {
-		if r.Out.Err != hist.ENil {
+		if r.Out.Err != hist.ENil || !(r.In.Kind == hist.KCreate || r.In.Kind == hist.KPut || r.In.Kind == hist.KCas) {
 			continue
 		}
-		var f *finding
-		switch r.In.Kind {
-		case hist.KCreate, hist.KPut, hist.KCas:
-			f = check(r, r.Out.Ver, r.In.Val)
-		case hist.KGet:
-			f = check(r, r.Out.Ver, r.Out.Val)
-		}
-		if f != nil {
-			out = append(out, *f)
+		if r.Out.Ver == "" {
+			out = append(out, finding{cfg.Backend + "/" + hist.KindNames[r.In.Kind] + "/empty-version", fmt.Sprintf("%s: a successful write returned an empty version", r), witness{Cfg: cfg, Key: r.In.Key, History: []hist.Rec{r}}})
+			fresh = false
 			break
 		}
+		if prev, ok := byWrite[r.Out.Ver]; ok {
+			out = append(out, finding{cfg.Backend + "/version-reused", fmt.Sprintf("two successful writes were given the same version %q: %s and %s", r.Out.Ver, prev.r, r), witness{Cfg: cfg, Key: r.In.Key, History: []hist.Rec{prev.r, r}}})
+			fresh = false
+			break
+		}
+		byWrite[r.Out.Ver] = wr{r.In.Val, r}
+	}
+	seenBy := map[string]hist.Rec{}
+	for _, r := range recs {
+		if !fresh || r.In.Kind != hist.KGet || r.Out.Err != hist.ENil {
+			continue
+		}
+		if w, ok := byWrite[r.Out.Ver]; ok && (w.val != r.Out.Val || w.r.In.Key != r.In.Key) {
+			out = append(out, finding{cfg.Backend + "/version-reused", fmt.Sprintf("%s reports version %q, which was handed out by %s", r, r.Out.Ver, w.r), witness{Cfg: cfg, Key: r.In.Key, History: []hist.Rec{w.r, r}}})
+			break
+		}
+		if prev, ok := seenBy[r.Out.Ver]; ok && (prev.Out.Val != r.Out.Val || prev.In.Key != r.In.Key) {
+			out = append(out, finding{cfg.Backend + "/version-reused", fmt.Sprintf("version %q is reported for two different records: %s and %s", r.Out.Ver, prev, r), witness{Cfg: cfg, Key: r.In.Key, History: []hist.Rec{prev, r}}})
+			break
+		}
+		seenBy[r.Out.Ver] = r
 	}
 	// direct counters
 	if cfg.Flavour == "create-race" || cfg.Flavour == "cas-race" {
@@ -410,7 +424,7 @@ func firstNonRace(recs []hist.Rec, cfg config) int64 { return 1 << 62 }
 func TestCheck(t *testing.T) {
 	run := report.New("C02", "exploration")
 	defer run.Finish(t)
-	run.Rule("concurrent histories of T in 2..8 clients x K in 4..12 operations over 1..3 keys (mix of Create/Get/Put/CasByVersion/Delete/GetMany/PutMany with unique values, hostile Version fields and stale / made-up CAS versions; flavours: mixed, racing creators, racing CAS on one version) recorded at the client boundary and checked (1) by porcupine against the per-key sequential model, (2) for outcomes outside the documented set, (3) for injectivity of version -> write. distinct = distinct outcome words (client, operation, key, outcome in call order) among histories in which operations of different clients on one key really overlapped in time")
+	run.Rule("concurrent histories of T in 2..8 clients x K in 4..12 operations over 1..3 keys (mix of Create/Get/Put/CasByVersion/Delete/GetMany/PutMany with unique values and occasional re-writes of identical bytes, hostile Version fields and stale / made-up CAS versions; flavours: mixed, racing creators, racing CAS on one version) recorded at the client boundary and checked (1) by porcupine against the per-key sequential model, (2) for outcomes outside the documented set, (3) for injectivity of version -> write. distinct = distinct outcome words (client, operation, key, outcome in call order) among histories in which operations of different clients on one key really overlapped in time")
 	run.Assume("Redis backend runs against the in-process miniredis server with random per-command delays injected by its pre-hook")
 	run.Assume("the version reported together with ErrExist is not judged here (C03)")
 
